@@ -2,8 +2,12 @@
    lock_order + progress: no reachable state of any finite set of threads is a deadlock.
    idle_holds_nothing: an operation that has returned (state Idle, or any state before its first
    acquisition) owns no lock; only a thread in AH (an active locked_table) keeps ownership.
-   PARTIAL: termination under fair scheduling is not proved; [progress] excludes deadlock but not an
-   unbounded sequence of mutually invalidated retries (DESIGN 6.4).  Bounded bodies: see
+   No spinning (ConcBound.v): the only backward edge of the snapshot protocol is the failed validation
+   EC -> EF -> S0; each such retry of a thread consumes a distinct increment of the generation counter,
+   i.e. a resize completed by some thread (retries <= bumps + 1); lock_all / unlock_all acquire / release
+   every stripe exactly once even when arrays are appended meanwhile.  PARTIAL: a bound on the number of
+   resizes themselves is data-dependent (sequential model: the hashpower grows strictly and is bounded,
+   see Refine.v [esc]); termination under a fair scheduler is not stated as one theorem.  Bounded bodies: see
    InsertLemmas.slot_search_fuel_enough / cuckoopath_search_shape (BFS dequeues and path length).
    Statements only; closed by [exact] of lemmas of ConcInv.v. *)
 From Coq Require Import NArith List.
@@ -34,3 +38,78 @@ Theorem C04_locked_table_owns_everything : forall hp0 rc0 arrs0, arrs_ok arrs0 -
   d = g_dirty (sh_ s) /\ first + 1 <= g_narr0 (sh_ s) /\ g_narr0 (sh_ s) <= narr (sh_ s) /\ (forall a l, first <= a -> a < narr (sh_ s) -> l < asz (sh_ s) a -> g_held (sh_ s) a l = Some t).
 Proof. exact all_holder_facts. Qed.
 Print Assumptions C04_locked_table_owns_everything.
+
+(* ---- no spinning: a validation failure (retry) needs a completed resize in between; lock_all / unlock_all are bounded loops (ConcBound.v) ---- *)
+From LC Require Import ConcBound.
+Theorem C04_retries_bounded_by_completed_resizes :
+  forall (hp0 rc0 : N) (arrs0 : list nat) (s : gstate),
+  reachable hp0 rc0 arrs0 s ->
+  forall (t : tid) (tr : list (tid * label)) (s' : gstate),
+  run s tr s' -> retries t s tr <= bumps tr + stale (sh_ s) (thr s t) /\ retries t s tr <= bumps tr + 1.
+Proof. exact retries_le_bumps_reachable. Qed.
+Print Assumptions C04_retries_bounded_by_completed_resizes.
+
+Theorem C04_retries_from_quiescent_start :
+  forall (hp0 rc0 : N) (arrs0 : list nat) (t : tid) (tr : list (tid * label)) (s' : gstate),
+  run (ginit hp0 rc0 arrs0) tr s' -> retries t (ginit hp0 rc0 arrs0) tr <= bumps tr.
+Proof. exact retries_le_bumps_init. Qed.
+Print Assumptions C04_retries_from_quiescent_start.
+
+Theorem C04_retry_needs_a_completed_resize :
+  forall (t : tid) (tr : list (tid * label)) (s s1 : gstate) (lb : label) (s' : gstate) (c : N),
+  run s tr s1 ->
+  gstep s1 t lb = Some s' ->
+  is_fail (thr s1 t) (thr s' t) = true ->
+  snapc (thr s1 t) = Some c ->
+  snapc (thr s t) = Some c /\ noload t tr /\ (c = g_rc (sh_ s) -> exists u : tid, In (u, FA_RC) tr) \/
+  (exists (tr1 tr2 : list (tid * label)) (u : tid),
+  tr = tr1 ++ (t, LD_RC c) :: tr2 /\ noload t tr2 /\ In (u, FA_RC) tr2).
+Proof. exact retry_needs_bump_gen. Qed.
+Print Assumptions C04_retry_needs_a_completed_resize.
+
+Theorem C04_generation_counts_completed_resizes :
+  forall (tr : list (tid * label)) (s s' : gstate),
+  run s tr s' -> g_rc (sh_ s') = (g_rc (sh_ s) + N.of_nat (bumps tr))%N.
+Proof. exact rc_counts_bumps. Qed.
+Print Assumptions C04_generation_counts_completed_resizes.
+
+Theorem C04_lock_all_acquires_each_stripe_once :
+  forall (hp0 rc0 : N) (arrs0 : list nat),
+  arrs_ok arrs0 ->
+  forall s : gstate,
+  reachable hp0 rc0 arrs0 s ->
+  forall (t : tid) (first : nat) (tr : list (tid * label)) (s' : gstate) (d : bool),
+  run s tr s' ->
+  thr s t = AR first first 0 ->
+  Forall (fun e : tid * label => ends_acq t e = false) tr ->
+  thr s' t = AH first d ->
+  locked_steps t tr = stripes_from (sh_ s') first /\ next_steps t tr = arrays_from (sh_ s') first.
+Proof. exact lock_all_exact_reachable. Qed.
+Print Assumptions C04_lock_all_acquires_each_stripe_once.
+
+Theorem C04_lock_all_bounded_while_arrays_are_appended :
+  forall (hp0 rc0 : N) (arrs0 : list nat),
+  arrs_ok arrs0 ->
+  forall s : gstate,
+  reachable hp0 rc0 arrs0 s ->
+  forall (t : tid) (first : nat) (tr : list (tid * label)) (s' : gstate),
+  run s tr s' ->
+  acquiring first (thr s t) ->
+  Forall (fun e : tid * label => ends_acq t e = false) tr ->
+  locked_steps t tr <= stripes_from (sh_ s') first /\ next_steps t tr <= arrays_from (sh_ s') first.
+Proof. exact lock_all_bounded_reachable. Qed.
+Print Assumptions C04_lock_all_bounded_while_arrays_are_appended.
+
+Theorem C04_unlock_all_releases_each_stripe_once :
+  forall (hp0 rc0 : N) (arrs0 : list nat),
+  arrs_ok arrs0 ->
+  forall s : gstate,
+  reachable hp0 rc0 arrs0 s ->
+  forall (t : tid) (first : nat) (d : bool) (a l : nat) (tr : list (tid * label)) (s1 s' : gstate),
+  thr s t = AH first d ->
+  gstep s t (UNLOCK a l) = Some s1 ->
+  run s1 tr s' ->
+  Forall (fun e : tid * label => is_next t e = false) tr ->
+  usteps t ((t, UNLOCK a l) :: tr) <= stripes_from (sh_ s) first.
+Proof. exact unlock_all_total_reachable. Qed.
+Print Assumptions C04_unlock_all_releases_each_stripe_once.
